@@ -7,6 +7,7 @@
 package main
 
 import (
+	"strings"
 	"context"
 	"encoding/hex"
 	"errors"
@@ -245,6 +246,9 @@ type gates struct {
 }
 
 func (g *gates) fn(point, sid string, m bool) {
+	if g.free {
+		return
+	}
 	if point == "step1" || point == "step3" {
 		g.mu.Lock()
 		g.records = append(g.records, park{point, sid, m})
@@ -468,6 +472,10 @@ func run(sc vh.Scenario, dir string, rec *vh.Rec) {
 	d.project(ev0)
 	rec.Emit(ev0)
 
+	if mode, _ := sc.Opt["mode"].(string); mode == "conc" {
+		d.concurrent(sc, rec, rng)
+		rec.DoneAndExit(9)
+	}
 	for i, st := range sc.Steps {
 		ev := vh.Event{"step": i + 1}
 		for k, v := range st {
@@ -787,6 +795,115 @@ func run(sc vh.Scenario, dir string, rec *vh.Rec) {
 			}
 		}
 	}
+}
+
+// concurrent: several callers issue the scenario's requests at the same time while the plotter runs freely and
+// plots end on their own after a moment.  Every call must return, stopping the keeper must terminate, nothing may
+// panic (C13: "for all concurrent callers").
+func (d *drv) concurrent(sc vh.Scenario, rec *vh.Rec, rng interface{ Intn(int) int }) {
+	sk := d.sk
+	ev := vh.Event{"step": 1, "a": "Conc"}
+	rec.Begin(ev)
+	d.g.free = true
+	stopPlots := make(chan struct{})
+	go func() {
+		for {
+			select {
+			case db := <-d.reg.inplot:
+				go func(db *fakeDB) {
+					time.Sleep(time.Duration(1+rng.Intn(4)) * time.Millisecond)
+					out := "complete"
+					if rng.Intn(3) == 0 {
+						out = "aborted"
+					}
+					select {
+					case db.finishCh <- out:
+					default:
+					}
+				}(db)
+			case <-stopPlots:
+				return
+			}
+		}
+	}()
+	threads, _ := sc.Opt["threads"].([]interface{})
+	var wg sync.WaitGroup
+	results := make(chan string, 4096)
+	sk.Start()
+	for ti, t := range threads {
+		ops, _ := t.([]interface{})
+		wg.Add(1)
+		go func(ti int, ops []interface{}) {
+			defer wg.Done()
+			for _, o := range ops {
+				st := vh.Step(o.(map[string]interface{}))
+				r, msg := call(func() error {
+					switch st.A() {
+					case "Act":
+						return sk.ActOnWorkSpace(d.sids[st.Str("w")], actNames[st.Str("act")])
+					case "Bulk":
+						var fl engine.WorkSpaceStateFlags
+						for _, f := range vh.StrSeq(st["flags"]) {
+							fl |= flagNames[f]
+						}
+						_, err := sk.ActOnWorkSpaces(fl, actNames[st.Str("act")])
+						return err
+					case "Query":
+						var fl engine.WorkSpaceStateFlags
+						for _, f := range vh.StrSeq(st["flags"]) {
+							fl |= flagNames[f]
+						}
+						if _, err := sk.WorkSpaceIDs(fl); err != nil {
+							return err
+						}
+						_, err := sk.WorkSpaceInfos(fl)
+						return err
+					case "Proofs":
+						ctx, cancel := context.WithTimeout(context.Background(), 2*time.Second)
+						defer cancel()
+						_, err := sk.GetProofs(ctx, engine.SFMining, pocutil.Hash{}, false)
+						return err
+					}
+					return nil
+				})
+				if r == "hang" || r == "panic" {
+					results <- fmt.Sprintf("thread %d %s(%v): %s %s", ti+1, st.A(), map[string]interface{}(st), r, msg)
+					return
+				}
+			}
+		}(ti, ops)
+	}
+	done := make(chan struct{})
+	go func() { wg.Wait(); close(done) }()
+	res := "ok"
+	select {
+	case <-done:
+	case <-time.After(3 * callTimeout):
+		res = "hang"
+	}
+	close(results)
+	bad := []string{}
+	for r := range results {
+		bad = append(bad, r)
+		if strings.Contains(r, "panic") {
+			res = "panic"
+		} else if res == "ok" {
+			res = "hang"
+		}
+	}
+	if res == "ok" {
+		if r, _ := call(func() error { return sk.Stop() }); r != "ok" {
+			res, bad = r, append(bad, "stopping the keeper: "+r)
+		}
+	}
+	if res == "ok" {
+		if r, _ := call(func() error { _, err := sk.WorkSpaceInfos(engine.SFAll); return err }); r == "hang" || r == "panic" {
+			res, bad = r, append(bad, "query after stop: "+r)
+		}
+	}
+	close(stopPlots)
+	ev["res"], ev["bad"] = res, bad
+	rec.Emit(ev)
 }
 
 func main() {
